@@ -412,7 +412,209 @@ func c08Run(c *Ctx, sc *c08Scenario, cfg simrt.Config, path string, resume []int
 	return life
 }
 
+// ---- an alert that inhibits another: the inhibition is part of the state a restart must bring back ----
+
+type c08IStep struct {
+	Which string `json:"to"` // a: the inhibiting alert's measurement, b: the inhibited one's
+	V     int    `json:"v"`
+}
+
+type c08InhibitScenario struct {
+	Kind       string     `json:"kind"`
+	Steps      []c08IStep `json:"steps"`
+	CrashAt    []int      `json:"crash_boundaries"`
+	Boundaries int        `json:"boundaries_in_base_run"`
+	Config     string     `json:"config"`
+}
+
+type c08ILife struct {
+	res      *simrt.Result
+	done     int // steps acknowledged
+	copyPath string
+	bounds   int
+	final    map[string]alert.Level // topic -> level of id h0 (absent = OK)
+	verdict  Verdict
+}
+
+const c08ScriptA = "stream\n    |from().measurement('ma').groupBy('host')\n    |alert()\n        .id('{{ index .Tags \"host\" }}')\n        .crit(lambda: \"v\" > 80)\n        .stateChangesOnly()\n        .inhibit('catb', 'host')\n        .topic('inhA')\n"
+const c08ScriptB = "stream\n    |from().measurement('mb').groupBy('host')\n    |alert()\n        .id('{{ index .Tags \"host\" }}')\n        .category('catb')\n        .crit(lambda: \"v\" > 80)\n        .topic('inhB')\n"
+
+func c08InhibitRun(c *Ctx, sc *c08InhibitScenario, cfg simrt.Config, path string, from, crashAt int) *c08ILife {
+	life := &c08ILife{done: from}
+	var st *harness.SimStorage
+	life.res = c.World(cfg, func() {
+		var err error
+		st, err = harness.NewSimStorage(path)
+		if err != nil {
+			life.verdict = Fail("harness/setup", "open store: %v", err)
+			return
+		}
+		st.CrashAt = crashAt
+		d, err := harness.NewDaemon(harness.DaemonOpts{Store: st, PersistTopics: true})
+		if err != nil {
+			life.verdict = Fail("restart/open", "the daemon cannot open on the storage as it stood at the crash: %v", err)
+			return
+		}
+		for _, t := range [][2]string{{"I0", c08ScriptA}, {"I1", c08ScriptB}} {
+			kt, err := d.Define(t[0], t[1], kapacitor.StreamTask, []kapacitor.DBRP{{Database: "db", RetentionPolicy: "rp"}})
+			if err != nil {
+				life.verdict = Fail("harness/setup", "define: %v\n%s", err, t[1])
+				return
+			}
+			if _, err := d.TM.StartTask(kt); err != nil {
+				life.verdict = Fail("harness/setup", "start: %v", err)
+				return
+			}
+		}
+		for i := from; i < len(sc.Steps); i++ {
+			stp := sc.Steps[i]
+			line := fmt.Sprintf("m%s,host=h0 v=%di,s=%di %d\n", stp.Which, stp.V, i, int64(time.Second)*int64(i+1))
+			if code := d.WriteLine("db", "rp", line); code != 204 {
+				return
+			}
+			life.done = i + 1
+			simrt.WaitIdle() // one point at a time
+		}
+		life.final = map[string]alert.Level{}
+		for _, tp := range []string{"inhA", "inhB"} {
+			if es, ok, _ := d.Alert.EventState(tp, "h0"); ok {
+				life.final[tp] = es.Level
+			}
+		}
+	})
+	if st != nil {
+		life.bounds, life.copyPath = st.Boundaries, st.CrashCopy
+	}
+	return life
+}
+
+func runC08Inhibit(c *Ctx) Verdict {
+	g := c.G
+	sc := &c08InhibitScenario{Kind: "an alert inhibits another"}
+	n := g.Range(4, 12)
+	for i := 0; i < n; i++ {
+		sc.Steps = append(sc.Steps, c08IStep{Which: []string{"a", "b", "b"}[g.Intn(3)], V: []int{10, 90, 90}[g.Intn(3)]})
+	}
+	c.Scenario = sc
+	cfg := c.WorldConfig()
+	delete(cfg.Knobs, "MinimumEventBufferSize")
+	delete(cfg.Knobs, "DefaultEventBufferSize")
+	cfg.MaxSteps = 4_000_000
+	sc.Config = fmt.Sprintf("%v p=%.2f", cfg.Strategy, cfg.SwitchProb)
+	base := c08InhibitRun(c, sc, cfg, "", 0, 0)
+	if v, bad := WorldVerdict(base.res, false); bad {
+		return v
+	}
+	if base.verdict.Class != "" {
+		return base.verdict
+	}
+	sc.Boundaries = base.bounds
+	// the uninterrupted run follows the documentation: an event of the inhibited alert is dropped while the
+	// inhibiting alert (same host) is not OK; otherwise it sets the topic's level
+	lvl := func(v int) alert.Level {
+		if v > 80 {
+			return alert.Critical
+		}
+		return alert.OK
+	}
+	a, b, bNode := alert.OK, alert.OK, alert.OK
+	for _, stp := range sc.Steps {
+		if stp.Which == "a" {
+			a = lvl(stp.V)
+			continue
+		}
+		l := lvl(stp.V)
+		emits := l != alert.OK || bNode != alert.OK
+		bNode = l
+		if emits && a == alert.OK {
+			b = l
+		}
+	}
+	if base.final["inhA"] != a || base.final["inhB"] != b {
+		return Fail("uninterrupted/final-state", "without any crash the inhibiting alert's topic ends at %v and the inhibited one's at %v; the documented behaviour gives %v and %v (steps %+v)", base.final["inhA"], base.final["inhB"], a, b, sc.Steps)
+	}
+	if base.bounds == 0 {
+		c.Trivial = true
+		return Pass()
+	}
+	seen := map[int]bool{}
+	for tries := 0; len(sc.CrashAt) < 8 && tries < 40; tries++ {
+		bd := 1 + g.Intn(base.bounds)
+		if !seen[bd] {
+			seen[bd] = true
+			sc.CrashAt = append(sc.CrashAt, bd)
+		}
+	}
+	sort.Ints(sc.CrashAt)
+	for _, bd := range sc.CrashAt {
+		l1 := c08InhibitRun(c, sc, cfg, "", 0, bd)
+		if l1.res.Status != simrt.StatusCrash {
+			if v, bad := WorldVerdict(l1.res, false); bad {
+				return v
+			}
+			c.Counters["obs.crash_boundary_not_reached"]++
+			continue
+		}
+		durable, err := c08Durable(l1.copyPath)
+		if err != nil {
+			return Fail("durable/corrupt", "crash at boundary %d: the durable copy cannot be read: %v", bd, err)
+		}
+		cfg2 := cfg
+		cfg2.Seed = cfg.Seed ^ uint64(bd)*0x9E3779B97F4A7C15
+		// the step in flight at the crash (acknowledged, perhaps not yet processed) is written again, so that the
+		// second life is a function of the storage and the remaining data
+		resume := l1.done - 1
+		if resume < 0 {
+			resume = 0
+		}
+		l2 := c08InhibitRun(c, sc, cfg2, l1.copyPath, resume, 0)
+		os.Remove(l1.copyPath)
+		if v, bad := WorldVerdict(l2.res, false); bad {
+			v.Detail = fmt.Sprintf("[second life after a crash at storage boundary %d of %d] ", bd, base.bounds) + v.Detail
+			return v
+		}
+		if l2.verdict.Class != "" {
+			return l2.verdict
+		}
+		// both alerts resume at the levels the storage holds (the inhibited alert's node too: what it had seen of
+		// inhibited events is gone with the process), then the documented behaviour applies to the remaining data
+		second := func(lazy bool) (alert.Level, alert.Level) {
+			a, b := durable["inhA"]["h0"], durable["inhB"]["h0"]
+			bNode, aSeen := b, false
+			for _, stp := range sc.Steps[resume:] {
+				if stp.Which == "a" {
+					a, aSeen = lvl(stp.V), true
+					continue
+				}
+				l := lvl(stp.V)
+				emits := l != alert.OK || bNode != alert.OK
+				bNode = l
+				if emits && !(a != alert.OK && (aSeen || !lazy)) {
+					b = l
+				}
+			}
+			return a, b
+		}
+		wa, wb := second(false)
+		if l2.final["inhA"] == wa && l2.final["inhB"] == wb {
+			continue
+		}
+		// ... unless the inhibition only comes back with the inhibiting alert's first point after the restart
+		la, lb := second(true)
+		v := Fail("final-state", "crash at boundary %d of %d after %d acknowledged steps (storage: inhibiting alert %v, inhibited alert %v): the second life, fed steps #%d.., ends with the inhibiting alert's topic at %v and the inhibited one's at %v; resuming at the stored levels the documented behaviour ends at %v and %v (steps %+v)",
+			bd, base.bounds, l1.done, durable["inhA"]["h0"], durable["inhB"]["h0"], resume, l2.final["inhA"], l2.final["inhB"], wa, wb, sc.Steps)
+		v.Shape = map[string]interface{}{"inhibit": true, "explained_by_inhibition_returning_only_with_the_inhibiting_alerts_next_point": l2.final["inhA"] == la && l2.final["inhB"] == lb}
+		if c.Report(v) {
+			return v
+		}
+	}
+	return c.Finish()
+}
+
 func runC08(c *Ctx) Verdict {
+	if c.G.Chance(1, 8) {
+		return runC08Inhibit(c)
+	}
 	sc := c08Gen(c)
 	c.Scenario = sc
 	cfg := c.WorldConfig()
@@ -663,6 +865,7 @@ func init() {
 		Run: runC08,
 		Rule: "case = 1-2 alert tasks (named topic - with a recording handler or touched by nothing but the task -, anonymous topic via a handler, or both on one node; alert id from the group-by tag alone or together with a tag outside the group-by; with/without stateChangesOnly) x 1-3 alert IDs with seeded level sequences (2-8/14 points) processed one point at a time; a base run counts the storage transaction boundaries B, then the same seed is re-executed once per crash position (every boundary before/after each commit in thorough and when B<=10, else the first 6 after the daemon has opened and a seeded sample of 6 more): crash there, restart on a byte copy of the Bolt file, restart the tasks, feed the remaining data; " +
 			"(round 3) in a quarter of the cases the daemon first opens on a storage in which a previous version left topic states in the version 1 layout (migrated on open; crashes inside the migration included); after every point, right after open and at the end the three views of each topic (one id, the event listing, the topic's level) must agree; " +
+			"one case in eight instead runs a pair of alerts of which one inhibits the other's category (one id, 4-12 steps to either of them, one at a time), crashes at up to 8 sampled boundaries, writes the step in flight again and compares the final levels of both topics with the documented behaviour resumed at the stored levels; " +
 			"non-trivial = the base run had at least one storage boundary; distinct = distinct (scenario, interleaving signatures) tuples",
 		Real:        []string{"services/alert Service (Open/loadSavedTopicStates, Collect, persistEventState/clearHistory, restoreTopic, EventState, UpdateEvent)", "alert.Topics", "AlertNode (restoreEventState/restoreEvent, determineLevel, alertState)", "services/storage Bolt adapter + real bbolt file", "TaskMaster, httpd write endpoint, edges"},
 		Stub:        []string{"harness StorageService wrapper: crash = abandon the world at a transaction boundary + byte copy of the Bolt file", "recording alert.Handler on every topic", "tasks are restarted by the harness (task_store restart is C14)", "durable levels are read back with bbolt directly, not through Kapacitor"},
